@@ -226,6 +226,11 @@ func RunHistoryShard(t *testing.T, env *ShardEnv) *ShardReport {
 				continue
 			}
 			vr := handleViolation(t, env, sc, w, RunScenario)
+			if vr.Replay == "" {
+				rep.Truncated["violation-not-reproducible-in-fresh-process"]++
+				rep.Note = "some in-process failures did not reproduce in a fresh process (state leaking between runs of one process): " + vr.Signature
+				continue
+			}
 			rep.Violations = append(rep.Violations, vr)
 			unknown++
 			if unknown >= 3 {
@@ -245,35 +250,47 @@ func RunHistoryShard(t *testing.T, env *ShardEnv) *ShardReport {
 	return rep
 }
 
-// handleViolation shrinks a failing scenario, re-records its tape, and writes the replay file.
+// handleViolation confirms a failing scenario in a fresh process (a failure that depends on
+// state left behind by earlier runs of this shard process is not a replayable violation),
+// shrinks it, re-records its tape, and writes the replay file.
 func handleViolation(t *testing.T, env *ShardEnv, sc *Scenario, w *World, runner func(*testing.T, *Scenario) *World) ViolationReport {
 	sig := w.viol.Sig
 	orig := len(sc.Ops)
+	os.MkdirAll(env.ReplayDir, 0o755)
+	save := func(s *Scenario, fw *World, suffix string) string {
+		s.Tape = fw.ch.Tape()
+		if fw.viol != nil {
+			s.Signature, s.Detail = fw.viol.Sig, fw.viol.Detail
+		} else {
+			s.Signature, s.Detail = sig, w.viol.Detail
+		}
+		s.LogHash = fmt.Sprintf("%x", fw.log.Sum())
+		s.ShrunkFrom = orig
+		name := fmt.Sprintf("%s-s%d-%x-%x%s.json", env.Prop, env.Shard, sc.Seed, fnv64([]byte(sig+fmt.Sprint(s.Extra)))&0xffffff, suffix)
+		path := filepath.Join(env.ReplayDir, name)
+		s.Save(path)
+		return path
+	}
+	// 1. the unshrunk scenario, with the tape this run recorded
+	full := sc.Clone()
+	fullPath := save(full, w, "-full")
+	if ok, _ := confirmReplay(fullPath, sig); !ok {
+		os.Remove(fullPath)
+		return ViolationReport{Property: env.Prop, Signature: sig, Detail: w.viol.Detail + " [not reproducible in a fresh process: depends on state left by earlier runs in this process]", Seed: sc.Seed, OpsBefore: orig, OpsAfter: orig}
+	}
+	// 2. shrink, re-record, confirm the shrunk file too
 	small := Shrink(t, sc, sig, runner, 400)
-	// final recording run
 	small.Tape = nil
 	fw := runner(t, small)
-	if fw.viol == nil || fw.viol.Sig != sig {
-		// shrinking lost it (should not happen); fall back to the original
-		small = sc.Clone()
-		small.Tape = nil
-		fw = runner(t, small)
+	if fw.viol != nil && fw.viol.Sig == sig {
+		p := save(small, fw, "")
+		if ok, _ := confirmReplay(p, sig); ok {
+			os.Remove(fullPath)
+			return ViolationReport{Property: env.Prop, Signature: small.Signature, Detail: small.Detail, Replay: p, Seed: sc.Seed, OpsBefore: orig, OpsAfter: len(small.Ops)}
+		}
+		os.Remove(p)
 	}
-	small.Tape = fw.ch.Tape()
-	if fw.viol != nil {
-		small.Signature = fw.viol.Sig
-		small.Detail = fw.viol.Detail
-	} else {
-		small.Signature = sig
-		small.Detail = w.viol.Detail + " (did not reproduce in-process after shrinking)"
-	}
-	small.LogHash = fmt.Sprintf("%x", fw.log.Sum())
-	small.ShrunkFrom = orig
-	name := fmt.Sprintf("%s-s%d-%x-%x.json", env.Prop, env.Shard, sc.Seed, fnv64([]byte(small.Signature+fmt.Sprint(small.Extra)))&0xffffff)
-	path := filepath.Join(env.ReplayDir, name)
-	os.MkdirAll(env.ReplayDir, 0o755)
-	small.Save(path)
-	return ViolationReport{Property: env.Prop, Signature: small.Signature, Detail: small.Detail, Replay: path, Seed: sc.Seed, OpsBefore: orig, OpsAfter: len(small.Ops)}
+	return ViolationReport{Property: env.Prop, Signature: sig, Detail: w.viol.Detail, Replay: fullPath, Seed: sc.Seed, OpsBefore: orig, OpsAfter: orig}
 }
 
 func mustJSON(v interface{}) json.RawMessage {
